@@ -141,10 +141,10 @@ class PDriver:
             return [f"{nid};255;3;0;11;sketch{k}\n"]
         return [f"{nid};{self.rng.choice(kids)};1;0;24;value {k}\n"]
 
-    def mutate(self, record=True):
-        """A message changes the network (fresh version)."""
+    def mutate(self, record=True, lines=None):
+        """A message changes the network (fresh version).  lines: the message(s) to use instead of a drawn one."""
         before = json.dumps(self.tree())
-        for ln in self._change_lines():
+        for ln in (lines or self._change_lines()):
             self.gw.logic(ln)
         key = json.dumps(self.tree())
         if key == before or key in self.versions:
@@ -153,7 +153,7 @@ class PDriver:
         self.nextv += 1
         self.versions[key] = v
         if record:
-            self.script.append(["mutate"])
+            self.script.append(["mutate"] + ([lines] if lines else []))
             self._obs({"a": "Mutate", "v": v, "noticed": False})
         return v
 
@@ -264,7 +264,7 @@ class PDriver:
         def on_op(i, name, label):
             listings.append(fs.listing())
             dirties.append(bool(self.pers.need_save))
-            if fault and name != "isfile":
+            if fault and fault[0] != "deny" and name != "isfile":
                 target["n"] += 1
                 if target["n"] == fault[1]:
                     if fault[0] == "fail":
@@ -278,6 +278,7 @@ class PDriver:
         mut = {"at": None, "v": 0}
         restore = self._install_contention(contend, mut) if contend is not None else (lambda: None)
         self.swallowed = []
+        fs.deny = bool(fault) and fault[0] == "deny"      # the writability pre-check of this attempt fails
         try:
             call()
         except fsshim.Crash:
@@ -286,8 +287,19 @@ class PDriver:
             self.last_exc = exc      # save_sensors called directly propagates the failure to its caller
         finally:
             fs.on_op = None
+            fs.deny = False
             restore()
         ops = fs.ops[base:]
+        if fault and fault[0] == "deny" and [o[0] for o in ops] in ([], ["isfile"]) and self.last_exc is None:
+            # the attempt ended at the pre-check, quietly (a library that does not pre-check simply saves: judged as a save)
+            if self.pers.need_save or ops:
+                self._obs({"a": "Denied"})
+            else:
+                self._obs({"a": "SaveBegin", "skipped": True})
+            if self.sched_on and self.events:
+                self.events[-1]["hassched"] = True
+                self.events[-1]["armed"] = self.armed()
+            return True, 0
         fidx = None
         if fs.fail_at is not None:
             fidx = fs.fail_at - base
